@@ -29,6 +29,25 @@ def rand_chs(rng, n, ns):
     return [(s >= 1 and rng.random() < 0.6) for s in range(ns) for _ in range(n)]
 
 
+def spec_flags(rng, c):
+    """the map is not given: it is the one the species' own flags prescribe, per environment with a 'default' entry - truthy defaults
+    with explicitly unflagged environments included"""
+    envs = c["desc"]["envs"]
+    for s in c["desc"]["species"]:
+        r = rng.random()
+        if r < 0.3:
+            s["chstt"] = {"scalar": rng.random() < 0.5}
+        else:
+            keys = [e for e in envs if rng.random() < 0.7] or [envs[0]]
+            ent = [[k, rng.random() < 0.4] for k in keys]
+            if rng.random() < 0.7:
+                ent.append(["default", rng.random() < 0.7])
+            rng.shuffle(ent)
+            s["chstt"] = {"dict": ent}
+    c["chs"] = sysgen.chs_from_species(c["desc"])
+    c["chs_from_species"] = True
+
+
 # ------------------------------------------------------------------------------ (a) derivative
 def observe_deriv(c):
     return c01.observe(c, want=("tables", "dstate", "dstate_chs", "dxdtf", "euler"))
@@ -196,6 +215,8 @@ def build_all(rng, tier, run=None):
         c = c01.make_case(rng, steps=rng.choice([1, 1, 1, 2]), max_cells=6)
         n, ns = sysgen.ncells(c["desc"]), len(c["desc"]["species"])
         c["chs"] = rand_chs(rng, n, ns)
+        if rng.random() < 0.3:
+            spec_flags(rng, c)
         deriv.append(c)
     # (b)
     traj = []
@@ -203,6 +224,8 @@ def build_all(rng, tier, run=None):
         c = trajgen.make_sim_case(rng, max_cells=6, max_steps=200 if tier == "quick" else 2000)
         n, ns = sysgen.ncells(c["desc"]), len(c["desc"]["species"])
         c["chs"] = rand_chs(rng, n, ns)
+        if rng.random() < 0.3:
+            spec_flags(rng, c)
         traj.append(c)
     # (c)
     app = [make_apply_case(rng) for _ in range(na)]
